@@ -828,12 +828,18 @@ impl SubRule {
                                 pos.increment(&res_word);
                                 continue;
                             }
+                            let left_to_scan = res_word.seg_count_from(pos);
                             let (res, next_pos) = self.insert(&res_word, ins, is_context_after)?;
                             res_word = res;
                 
                             if let Some(np) = next_pos {
                                 pos = np;
                                 if !is_context_after && pos.at_syll_end(&res_word) {
+                                    pos.increment(&res_word);
+                                }
+                                // every insertion has to take the scan past at least one segment of the word,
+                                // otherwise the same insertion point would be found again for ever
+                                while res_word.in_bounds(pos) && res_word.seg_count_from(pos) >= left_to_scan {
                                     pos.increment(&res_word);
                                 }
                             } else {
@@ -945,6 +951,7 @@ impl SubRule {
                 Some(mut ins_pos) => {
                     let mut pos = ins_pos;
                     let mut state_index = 0;
+                    let prev_start = start_pos;
                     start_pos = ins_pos;
                     while state_index < aft_states.len() {
                         #[cfg(feature = "verif")] crate::verif::tick(117);
@@ -953,6 +960,11 @@ impl SubRule {
                                 ParseElement::WordBound => return Ok(None),
                                 ParseElement::SyllBound => start_pos.increment(word),
                                 _ => {}
+                            }
+                            // a before-context that matched without consuming a segment (an optional
+                            // taken zero times) must not be tried again at the same place
+                            if start_pos == prev_start {
+                                start_pos.increment(word);
                             }
                             continue 'outer;
                         }
@@ -1035,6 +1047,8 @@ impl SubRule {
         let mut state_index = 0;
         let mut match_begin = None;
 
+        // where the scan stood when the current partial match began (the insertion point itself may lie before it)
+        let mut scan_begin = start_pos;
         while word.in_bounds(cur_pos) {
             #[cfg(feature = "verif")] crate::verif::tick(119);
             let before_pos = cur_pos;
@@ -1046,13 +1060,14 @@ impl SubRule {
                         sp.seg_index +=1;
                     }
                     match_begin = Some(sp);
+                    scan_begin = before_pos;
                 }
                 if state_index >= states.len() - 1 {
                     return Ok(match_begin)
                 }
                 state_index += 1;
-            } else if let Some(mb) = match_begin{
-                cur_pos = mb;
+            } else if match_begin.is_some() {
+                cur_pos = scan_begin;
                 cur_pos.increment(word);
                 state_index = 0;
                 match_begin = None;
